@@ -1,5 +1,500 @@
-//! C27 harness (stub: not implemented yet).
+//! C27 — SSH agent client response parsing and SSH wire encoding of keys.
+//!
+//! Runs the REAL `AgentClient` (radicle-ssh) over a scripted `ClientStream` that answers every request
+//! with the response bytes of the case, and the REAL `Encodable` impls of radicle-crypto.
+//!
+//! Case forms (same tokens the Lean driver reads; bytes in hex, `-` = empty):
+//!   ident <resp>      request_identities::<PublicKey>()      -> ok:<key>,<key>… | err | panic
+//!   sign <resp>       sign(&pk, data)                         -> ok:<sig> | err | panic
+//!   ext <resp>        query_extension(..)                     -> ok:0|1 | err | panic
+//!   pkread|sigread|skread <bytes>   K::read(&mut bytes.reader(0)) -> ok:<value> | err | panic
+//!   rtsig <sig64> | rtsk <sk64>     write, then read          -> <written> <result>
+//!   rtpk <pk32>       write, read_string, PublicKey::read on the blob -> <written> <result>
+//!   rtids <pk>,<pk>… <comment>,<comment>…   identities answer built with the real writers,
+//!                     then request_identities                 -> <answer> <result>
+//!
+//! Oracle (the property statement on what the real code did): no panic on any response; what was
+//! written reads back unchanged.
+
+use radicle_crypto::{PublicKey, SecretKey, Signature};
+use radicle_ssh::agent::client::{AgentClient, ClientStream, Error};
+use radicle_ssh::encoding::{Buffer, Encodable, Encoding, Reader};
+use verif_common::*;
+
+/// A stream that ignores requests and answers with canned bytes (the response body, i.e. what
+/// follows the 4-byte length prefix on the socket).
+struct Scripted(Vec<u8>);
+
+impl ClientStream for Scripted {
+    fn connect<P>(_path: P) -> Result<AgentClient<Self>, Error>
+    where
+        P: AsRef<std::path::Path> + Send,
+    {
+        unreachable!()
+    }
+
+    fn request(&mut self, _buf: &[u8]) -> Result<Buffer, Error> {
+        Ok(Buffer::new(self.0.clone()))
+    }
+}
+
+fn some_pk() -> PublicKey {
+    PublicKey::from([0x42u8; 32])
+}
+
+fn hex_list(xs: &[Vec<u8>]) -> String {
+    if xs.is_empty() {
+        "-".into()
+    } else {
+        xs.iter().map(|x| hex(x)).collect::<Vec<_>>().join(",")
+    }
+}
+
+fn unhex_list(s: &str) -> Option<Vec<Vec<u8>>> {
+    if s == "-" {
+        return Some(vec![]);
+    }
+    s.split(',').map(|t| if t == "_" { Some(vec![]) } else { unhex(t) }).collect()
+}
+
+/// `ok:<…>` / `err` / `panic`
+fn show<T, E>(r: Result<Result<T, E>, String>, f: impl Fn(&T) -> String) -> (String, &'static str) {
+    match r {
+        Ok(Ok(v)) => (format!("ok:{}", f(&v)), "ok"),
+        Ok(Err(_)) => ("err".to_string(), "err"),
+        Err(_) => ("panic".to_string(), "panic"),
+    }
+}
+
+fn run_case(input: &str) -> Outcome {
+    let toks: Vec<&str> = input.split(' ').collect();
+    let bad = || Outcome::new("bad-case").trivial();
+    match toks.as_slice() {
+        ["ident", r] => {
+            let Some(resp) = unhex(r) else { return bad() };
+            let res = catch(|| AgentClient::connect(Scripted(resp.clone())).request_identities::<PublicKey>());
+            let nkeys = res.as_ref().ok().and_then(|r| r.as_ref().ok()).map(|k| k.len());
+            let (out, kind) = show(res, |ks| hex_list(&ks.iter().map(|k| k.to_vec()).collect::<Vec<_>>()));
+            let mut o = Outcome::new(out).tag(format!("ident-{kind}"));
+            if let Some(n) = nkeys {
+                o = o.tag(format!("ident-keys-{}", n.min(3)));
+            }
+            if kind == "panic" {
+                o = o.violation("ident-panic", format!("request_identities panicked on response {r}"));
+            }
+            o.nontrivial = resp.first() == Some(&12) && resp.len() >= 5;
+            o
+        }
+        ["sign", r] => {
+            let Some(resp) = unhex(r) else { return bad() };
+            let pk = some_pk();
+            let res = catch(|| AgentClient::connect(Scripted(resp.clone())).sign(&pk, b"data"));
+            let (out, kind) = show(res, |s| hex(&s[..]));
+            let mut o = Outcome::new(out).tag(format!("sign-{kind}"));
+            if kind == "panic" {
+                o = o.violation("sign-panic", format!("sign panicked on response {r}"));
+            }
+            o.nontrivial = resp.first() == Some(&14) && resp.len() >= 5;
+            o
+        }
+        ["ext", r] => {
+            let Some(resp) = unhex(r) else { return bad() };
+            let res = catch(|| AgentClient::connect(Scripted(resp.clone())).query_extension(b"ext", Buffer::default()));
+            let (out, kind) = show(res, |b| (*b as u8).to_string());
+            let mut o = Outcome::new(out).tag(format!("ext-{kind}"));
+            if kind == "panic" {
+                o = o.violation("ext-panic", format!("query_extension panicked on response {r}"));
+            }
+            o.nontrivial = resp.len() >= 5;
+            o
+        }
+        [op @ ("pkread" | "sigread" | "skread"), r] => {
+            let Some(bytes) = unhex(r) else { return bad() };
+            let (out, kind) = match *op {
+                "pkread" => show(catch(|| PublicKey::read(&mut bytes.reader(0))), |k| hex(&k[..])),
+                "sigread" => show(catch(|| Signature::read(&mut bytes.reader(0))), |s| hex(&s[..])),
+                _ => show(catch(|| SecretKey::read(&mut bytes.reader(0))), |s| hex(&s[..])),
+            };
+            let mut o = Outcome::new(out).tag(format!("{op}-{kind}"));
+            if kind == "panic" {
+                o = o.violation("key-read-panic", format!("{op} panicked on {r}"));
+            }
+            o.nontrivial = bytes.len() >= 4;
+            o
+        }
+        ["rtsig", v] => {
+            let Some(b) = unhex(v) else { return bad() };
+            let Ok(arr) = <[u8; 64]>::try_from(b.as_slice()) else { return bad() };
+            let sig = Signature::from(arr);
+            let res = catch(|| {
+                let mut buf = Buffer::default();
+                sig.write(&mut buf);
+                let r = Signature::read(&mut buf.reader(0));
+                (buf.to_vec(), r)
+            });
+            rt_outcome("rtsig", "sig-roundtrip", res, |s| s[..].to_vec(), &b)
+        }
+        ["rtsk", v] => {
+            let Some(b) = unhex(v) else { return bad() };
+            let Ok(arr) = <[u8; 64]>::try_from(b.as_slice()) else { return bad() };
+            let sk = SecretKey::from(arr);
+            let res = catch(|| {
+                let mut buf = Buffer::default();
+                sk.write(&mut buf);
+                let r = SecretKey::read(&mut buf.reader(0));
+                (buf.to_vec(), r)
+            });
+            rt_outcome("rtsk", "sk-roundtrip", res, |s| s[..].to_vec(), &b)
+        }
+        ["rtpk", v] => {
+            let Some(b) = unhex(v) else { return bad() };
+            let Ok(arr) = <[u8; 32]>::try_from(b.as_slice()) else { return bad() };
+            let pk = PublicKey::from(arr);
+            // Reading fixed in DESIGN.md §6 C27: through the agent framing, as request_identities does.
+            let res = catch(|| {
+                let mut buf = Buffer::default();
+                pk.write(&mut buf);
+                let mut r = buf.reader(0);
+                let read = match r.read_string() {
+                    Ok(blob) => PublicKey::read(&mut blob.reader(0)).map_err(|_| ()),
+                    Err(_) => Err(()),
+                };
+                (buf.to_vec(), read)
+            });
+            // Observation only: a direct read of what `write` wrote.
+            let direct = catch(|| {
+                let mut buf = Buffer::default();
+                pk.write(&mut buf);
+                PublicKey::read(&mut buf.reader(0)).is_ok()
+            });
+            let o = rt_outcome("rtpk", "pk-roundtrip", res, |k| k[..].to_vec(), &b);
+            match direct {
+                Ok(true) => o.tag("rtpk-direct-read-ok"),
+                Ok(false) => o.tag("rtpk-direct-read-err"),
+                Err(_) => o.violation("key-read-panic", "direct PublicKey::read of written key panicked"),
+            }
+        }
+        ["rtids", pks, cms] => {
+            let (Some(pks), Some(cms)) = (unhex_list(pks), unhex_list(cms)) else { return bad() };
+            if pks.len() != cms.len() || pks.iter().any(|p| p.len() != 32) {
+                return bad();
+            }
+            let keys: Vec<PublicKey> =
+                pks.iter().map(|p| PublicKey::from(<[u8; 32]>::try_from(p.as_slice()).unwrap())).collect();
+            let res = catch(|| {
+                // byte SSH_AGENT_IDENTITIES_ANSWER, uint32 nkeys, (string key blob, string comment)*
+                let mut resp: Vec<u8> = vec![12u8];
+                resp.extend_u32(keys.len() as u32);
+                for (k, c) in keys.iter().zip(cms.iter()) {
+                    k.write(&mut resp);
+                    resp.extend_ssh_string(c);
+                }
+                let r = AgentClient::connect(Scripted(resp.clone())).request_identities::<PublicKey>();
+                (resp, r)
+            });
+            match res {
+                Err(_) => Outcome::new("panic")
+                    .tag("rtids-panic")
+                    .violation("ident-panic", "writing or parsing an identities answer panicked"),
+                Ok((written, r)) => {
+                    let (out, kind) = show(Ok(r.as_ref().map(|ks| ks.iter().map(|k| k.to_vec()).collect::<Vec<_>>())), |ks| hex_list(ks));
+                    let mut o = Outcome::new(format!("{} {}", hex(&written), out))
+                        .tag(format!("rtids-{kind}"))
+                        .tag(format!("rtids-n-{}", keys.len().min(3)));
+                    let same = matches!(&r, Ok(ks) if ks.iter().map(|k| k.to_vec()).collect::<Vec<_>>() == pks);
+                    if !same {
+                        o = o.violation("identities-roundtrip", format!("{} keys written, read back {out}", keys.len()));
+                    }
+                    o.nontrivial = !keys.is_empty();
+                    o
+                }
+            }
+        }
+        _ => bad(),
+    }
+}
+
+fn rt_outcome<T, E>(
+    op: &str,
+    class: &str,
+    res: Result<(Vec<u8>, Result<T, E>), String>,
+    bytes: impl Fn(&T) -> Vec<u8>,
+    expect: &[u8],
+) -> Outcome {
+    match res {
+        Err(_) => Outcome::new("panic").tag(format!("{op}-panic")).violation("key-read-panic", format!("{op}: write/read panicked")),
+        Ok((written, r)) => {
+            let same = matches!(&r, Ok(v) if bytes(v) == expect);
+            let (out, kind) = show(Ok(r), |v| hex(&bytes(v)));
+            let mut o = Outcome::new(format!("{} {}", hex(&written), out)).tag(format!("{op}-{kind}"));
+            if !same {
+                o = o.violation(class, format!("{op}: wrote {} but read back {out}", hex(expect)));
+            }
+            o
+        }
+    }
+}
+
+// ---------------------------------------------------------------------------------------------
+// generators
+
+fn rbytes(rng: &mut Rng, n: u64) -> Vec<u8> {
+    rng.bytes(n as usize)
+}
+
+fn ssh_string(s: &[u8]) -> Vec<u8> {
+    let mut v = (s.len() as u32).to_be_bytes().to_vec();
+    v.extend_from_slice(s);
+    v
+}
+
+fn key_type(rng: &mut Rng) -> Vec<u8> {
+    match rng.below(10) {
+        0 => b"ssh-rsa".to_vec(),
+        1 => b"ssh-ed25518".to_vec(),
+        2 => vec![],
+        3 => { let n_ = rng.below(14); rbytes(rng, n_ as u64) },
+        _ => b"ssh-ed25519".to_vec(),
+    }
+}
+
+fn blob_len(rng: &mut Rng, exact: usize) -> usize {
+    match rng.below(12) {
+        0 => 0,
+        1 => 1,
+        2 => exact - 1,
+        3 => exact + 1,
+        4 => 2 * exact,
+        5 => rng.below(80) as usize,
+        _ => exact,
+    }
+}
+
+/// Key blob as found in an identities answer (contents of the outer string).
+fn key_blob(rng: &mut Rng) -> Vec<u8> {
+    if rng.chance(1, 12) {
+        return { let n_ = rng.below(12); rbytes(rng, n_ as u64) };
+    }
+    let mut b = ssh_string(&key_type(rng));
+    let n = blob_len(rng, 32);
+    b.extend(ssh_string(&rng.bytes(n)));
+    if rng.chance(1, 10) {
+        b.extend({ let n_ = rng.range(1, 6); rbytes(rng, n_ as u64) });
+    }
+    b
+}
+
+fn identities_answer(rng: &mut Rng) -> Vec<u8> {
+    let actual = rng.below(5);
+    let declared: u32 = match rng.below(12) {
+        0 => actual as u32 + 1,
+        1 => (actual as u32).saturating_sub(1),
+        2 => u32::MAX,
+        3 => rng.next() as u32,
+        _ => actual as u32,
+    };
+    let mut v = vec![if rng.chance(1, 16) { rng.next() as u8 } else { 12u8 }];
+    v.extend(declared.to_be_bytes());
+    for _ in 0..actual {
+        v.extend(ssh_string(&key_blob(rng)));
+        v.extend(ssh_string(&{ let n_ = rng.below(10); rbytes(rng, n_ as u64) }));
+    }
+    if rng.chance(1, 8) {
+        v.extend({ let n_ = rng.range(1, 9); rbytes(rng, n_ as u64) });
+    }
+    v
+}
+
+fn sign_response(rng: &mut Rng) -> Vec<u8> {
+    let first = match rng.below(12) {
+        0 => 5u8,
+        1 => 6,
+        2 => rng.next() as u8,
+        _ => 14,
+    };
+    let mut inner = ssh_string(&key_type(rng));
+    let n = blob_len(rng, 64);
+    inner.extend(ssh_string(&rng.bytes(n)));
+    if rng.chance(1, 10) {
+        inner.extend({ let n_ = rng.range(1, 5); rbytes(rng, n_ as u64) });
+    }
+    let mut v = vec![first];
+    v.extend(ssh_string(&inner));
+    if rng.chance(1, 10) {
+        v.extend({ let n_ = rng.range(1, 5); rbytes(rng, n_ as u64) });
+    }
+    v
+}
+
+fn ext_response(rng: &mut Rng) -> Vec<u8> {
+    let mut v = vec![*rng.pick(&[6u8, 5, 28, 0])];
+    v.extend(ssh_string(&{ let n_ = rng.below(12); rbytes(rng, n_ as u64) }));
+    v
+}
+
+/// Malformed stream: damage a well-formed message.
+fn damage(rng: &mut Rng, mut v: Vec<u8>) -> Vec<u8> {
+    match rng.below(10) {
+        // keep
+        0..=3 => v,
+        // truncate (every prefix is reachable, including the empty response)
+        4 | 5 => {
+            let n = rng.below(v.len() as u64 + 1) as usize;
+            v.truncate(n);
+            v
+        }
+        // overwrite one byte, biased to the length fields' interesting values
+        6 | 7 => {
+            if !v.is_empty() {
+                let i = rng.below(v.len() as u64) as usize;
+                v[i] = *rng.pick(&[0u8, 1, 3, 4, 0x0b, 0x20, 0x40, 0x41, 0x7f, 0x80, 0xff]);
+            }
+            v
+        }
+        // random short bytes with small length fields
+        8 => {
+            let len = rng.below(48) as usize;
+            let mut w = rng.bytes(len);
+            if let Some(f) = w.first_mut() {
+                if rng.bool() {
+                    *f = *rng.pick(&[5u8, 6, 12, 14]);
+                }
+            }
+            for b in w.iter_mut().skip(1) {
+                if rng.chance(5, 8) {
+                    *b = if rng.bool() { 0 } else { rng.below(8) as u8 };
+                }
+            }
+            w
+        }
+        // drop a byte
+        _ => {
+            if !v.is_empty() {
+                let i = rng.below(v.len() as u64) as usize;
+                v.remove(i);
+            }
+            v
+        }
+    }
+}
+
+fn written_key(rng: &mut Rng, which: u64) -> Vec<u8> {
+    let mut buf = Buffer::default();
+    match which {
+        0 => {
+            // the blob form PublicKey::read expects
+            let mut b = ssh_string(&key_type(rng));
+            let n = blob_len(rng, 32);
+            b.extend(ssh_string(&rng.bytes(n)));
+            return b;
+        }
+        1 => Signature::from(<[u8; 64]>::try_from(rng.bytes(64).as_slice()).unwrap()).write(&mut buf),
+        _ => {
+            let sk = SecretKey::from(<[u8; 64]>::try_from(rng.bytes(64).as_slice()).unwrap());
+            sk.write(&mut buf);
+            let mut v = buf.to_vec();
+            if rng.chance(1, 4) {
+                // make the public half disagree with the key pair (Mismatch branch)
+                let i = 4 + 11 + 4 + rng.below(32) as usize;
+                v[i] ^= 1 << rng.below(8);
+            }
+            return v;
+        }
+    }
+    buf.to_vec()
+}
+
+fn gen_case(rng: &mut Rng) -> String {
+    match rng.below(20) {
+        0..=6 => {
+            let v = identities_answer(rng);
+            format!("ident {}", hex(&damage(rng, v)))
+        }
+        7..=11 => {
+            let v = sign_response(rng);
+            format!("sign {}", hex(&damage(rng, v)))
+        }
+        12 => {
+            let v = ext_response(rng);
+            format!("ext {}", hex(&damage(rng, v)))
+        }
+        13..=15 => {
+            let which = rng.below(3);
+            let v = written_key(rng, which);
+            let v = damage(rng, v);
+            format!("{} {}", ["pkread", "sigread", "skread"][which as usize], hex(&v))
+        }
+        16 => format!("rtsig {}", hex(&rng.bytes(64))),
+        17 => format!("rtsk {}", hex(&rng.bytes(64))),
+        18 => format!("rtpk {}", hex(&rng.bytes(32))),
+        _ => {
+            let n = rng.below(5) as usize;
+            let pks: Vec<Vec<u8>> = (0..n).map(|_| rng.bytes(32)).collect();
+            let cms: Vec<String> = (0..n)
+                .map(|_| {
+                    let c = { let n_ = rng.below(9); rbytes(rng, n_ as u64) };
+                    if c.is_empty() { "_".to_string() } else { hex(&c) }
+                })
+                .collect();
+            format!("rtids {} {}", hex_list(&pks), if cms.is_empty() { "-".to_string() } else { cms.join(",") })
+        }
+    }
+}
+
 fn main() {
-    eprintln!("C27: harness not implemented");
-    std::process::exit(3);
+    let mut ctx = Ctx::from_args("C27");
+    if !ctx.run_fixed(run_case) {
+        let mut rng = ctx.rng();
+        // every prefix and a set of one-byte overwrites of three well-formed messages (small finite domain)
+        let mut seeds: Vec<(&str, Vec<u8>)> = vec![];
+        {
+            let pk = PublicKey::from([9u8; 32]);
+            let mut ids = vec![12u8, 0, 0, 0, 2];
+            for c in [&b"comment"[..], &b""[..]] {
+                pk.write(&mut ids);
+                ids.extend(ssh_string(c));
+            }
+            seeds.push(("ident", ids));
+            for n in [64usize, 3] {
+                let mut inner = ssh_string(b"ssh-ed25519");
+                inner.extend(ssh_string(&(0..n).map(|i| i as u8).collect::<Vec<_>>()));
+                let mut v = vec![14u8];
+                v.extend(ssh_string(&inner));
+                seeds.push(("sign", v));
+            }
+        }
+        for (op, valid) in &seeds {
+            for i in 0..=valid.len() {
+                let input = format!("{op} {}", hex(&valid[..i]));
+                let o = run_case(&input);
+                ctx.count("enumerated-prefix");
+                ctx.record(&input, o);
+            }
+            for i in 0..valid.len() {
+                for b in [0u8, 1, 0x3f, 0x40, 0x41, 0x7f, 0x80, 0xff] {
+                    let mut v = valid.clone();
+                    v[i] = b;
+                    let input = format!("{op} {}", hex(&v));
+                    let o = run_case(&input);
+                    ctx.count("enumerated-overwrite");
+                    ctx.record(&input, o);
+                }
+            }
+        }
+        for _ in 0..ctx.size(20_000, 1_000_000) {
+            let input = gen_case(&mut rng);
+            let o = run_case(&input);
+            ctx.record(&input, o);
+        }
+    }
+    ctx.finish(
+        "agent responses built from well-formed identities answers / sign responses / extension replies (0-4 keys, \
+         key and signature blobs of length 0,1,n-1,n,n+1,2n,random, wrong algorithm names, declared counts above/below/far \
+         above the entries present, trailing bytes) then kept, truncated at a random prefix, one byte overwritten, one byte \
+         dropped, or replaced by short random bytes with small length fields; every prefix and 8 overwrites per byte of \
+         three well-formed messages; Encodable::read on damaged written keys; write/read round trips of random keys, \
+         signatures, secret keys and identity lists. Non-trivial = the response has the expected message type and at \
+         least a length field (ident/sign/ext), at least 4 bytes (key reads), any round trip; distinct by input text",
+        false,
+    );
 }
